@@ -1,0 +1,28 @@
+//go:build verif
+
+// Contracts for package symbols, checked by /verif/gocv (comment-only file; no code).
+
+package symbols
+
+// WellformedBound only inspects its argument.
+//@ func WellformedBound(bound)
+//@   trusted
+//@   modifies nothing
+
+// ---- C10: desugaring cannot index out of range on declarations that passed the context-free check -------
+
+//@ spec func rowsOK(d ast.Decl, arity int) bool = forall i int :: 0 <= i && i < len(d.Bounds) ==> len(d.Bounds[i].Bounds) == arity
+//@ spec func declsOK(m map[ast.PredicateSym]ast.Decl) bool = forall p ast.PredicateSym :: p in m ==> rowsOK(m[p], len(m[p].DeclaredAtom.Args)) && len(m[p].DeclaredAtom.Args) == p.Arity
+
+//@ func CheckAndDesugar(decls)
+//@   requires declsOK(decls)
+//@   opt nosafety
+
+// desugarOneDecl: contract recorded as documentation of the precondition (one bound per argument in every row);
+// its body is NOT verified in this revision (obligations after the recursive call time out).
+//@ func (d *desugar) desugarOneDecl(sym)
+//@   requires d != nil && d.decls != nil && d.seen != nil && d.desugared != nil && declsOK(d.decls) && 0 <= sym.Arity && sym.Arity <= 1024
+//@   opt allowpanic
+//@   loop 1 invariant 0 <= i && i <= sym.Arity && len(bounds) == sym.Arity
+//@   loop 2 invariant -1 <= rangeindex && len(boundInfos) == len(decl.Bounds) && declsOK(d.decls) && sym in d.decls && decl == d.decls[sym]
+//@   loop 3 invariant -1 <= rangeindex && len(boundInfos) == len(decl.Bounds) && declsOK(d.decls) && sym in d.decls && decl == d.decls[sym] && boundInfo != nil && len(boundInfo.bounds) == sym.Arity && boundDecl == decl.Bounds[rangeindex]
